@@ -15,5 +15,5 @@ CONSTANTS
   DevGCDropsEdge = FALSE
   DevNoReloadOpenBatch = TRUE
   DevKeyByBlockTs = FALSE
-INVARIANTS AbsIter AbsLastUpdated AbsAgree
+INVARIANTS AbsAll
 CHECK_DEADLOCK FALSE
